@@ -184,6 +184,24 @@ def main():
     jobs = int(a[a.index("--jobs") + 1]) if "--jobs" in a else 4
     scale = float(a[a.index("--runs-scale") + 1]) if "--runs-scale" in a else 0.25
     out_path = a[a.index("--out") + 1] if "--out" in a else os.path.join(ROOT, "selftest", "mutation_results.json")
+    if "--recheck" in a:
+        # second pass: the mutants that survived the reduced budgets are run against the full quick tiers
+        src = a[a.index("--recheck") + 1]
+        with open(src) as f:
+            prev = json.load(f)
+        todo = [r for r in prev["results"] if r.get("status") == "survived_tests" and not r.get("killed_by_checks")]
+        print("re-checking %d survivors of %s with the full quick tiers" % (len(todo), src), flush=True)
+        workers = max(2, 16 // jobs)
+        out = []
+        with concurrent.futures.ThreadPoolExecutor(max_workers=jobs) as ex:
+            for r in ex.map(evaluate, [(r["id"], {k: r[k] for k in ("file", "line", "old", "new", "props", "op")}, 1.0, workers) for r in todo]):
+                out.append(r)
+                tag = ("KILLED by " + ",".join(p_ for p_, v in r.get("checks", {}).items() if v["exit"] == 1)) if r.get("killed_by_checks") \
+                    else ("HARNESS-ERROR" if r.get("harness_error") else r.get("status") if r.get("status") != "survived_tests" else "survived checks")
+                print("%3d %-22s %s:%d  %s  |  %s" % (r["id"], tag, r["file"].split("/")[-1], r["line"], r["old"].strip()[:60], r["new"].strip()[:60]), flush=True)
+                with open(out_path, "w") as f:
+                    json.dump({"recheck_of": src, "results": out}, f, indent=1)
+        return
     cands = candidates("/repo/src")
     rng = random.Random(seed)
     rng.shuffle(cands)
